@@ -393,9 +393,13 @@ func runCheck(c check, tier string) int {
 		"violations":  len(violations),
 	}
 	if tier != "replay" {
-		os.MkdirAll(filepath.Join(root, "evidence"), 0o755)
+		evDir := filepath.Join(root, "evidence")
+		if d := os.Getenv("VERIF_SCRATCH"); d != "" {
+			evDir = filepath.Join(d, "evidence") // evaluation of a seeded change: not evidence about /repo
+		}
+		os.MkdirAll(evDir, 0o755)
 		b, _ := json.MarshalIndent(evid, "", " ")
-		if err := os.WriteFile(filepath.Join(root, "evidence", c.ID+".json"), b, 0o644); err != nil {
+		if err := os.WriteFile(filepath.Join(evDir, c.ID+".json"), b, 0o644); err != nil {
 			fmt.Fprintln(os.Stderr, "harness: cannot write evidence:", err)
 			trouble = true
 		}
